@@ -37,6 +37,7 @@ type LPkg struct {
 	Units  map[string]*FuncUnit // by contract key
 	Drift  map[string]string    // contract units dropped because the code drifted away (key -> reason)
 	SkipAssert map[string]string // point assertions dropped on their own ("Key#k" -> reason)
+	SkipFull   map[string]bool   // drifted units whose pre/postconditions do not apply to the code either
 	Extern map[*ssa.Function]*FuncUnit // assumed contracts on functions of other modules
 	Lemmas []*LemmaUnit
 	posIdx map[*ast.File]map[token.Pos]ast.Node
@@ -92,6 +93,9 @@ type FuncUnit struct {
 	// is gone or ambiguous; they are left out and reported undecided one by one.
 	LoopDrift   []string
 	AssertDrift []string
+	// Drifted: the contract's annotations no longer apply to the body; the unit is not verified in
+	// this run (reported undecided) but its pre/postconditions still serve its callers.
+	Drifted  bool
 	id       string
 	IfaceT   *types.Named // for iface contracts
 	IfaceM   string
@@ -295,6 +299,12 @@ func Load(patterns []string) (*Loaded, error) {
 				}
 				if _, dup := skip[key]; !dup {
 					skip[key] = "contract does not type-check against the current code: " + te.Msg
+					progressed = true
+				} else if !lp.SkipFull[key] {
+					if lp.SkipFull == nil {
+						lp.SkipFull = map[string]bool{}
+					}
+					lp.SkipFull[key] = true
 					progressed = true
 				}
 			}
@@ -647,7 +657,14 @@ func (ld *Loaded) genStub(lp *LPkg, skip map[string]string) (string, error) {
 			return "", err
 		}
 		if _, dup := skip[cur]; dup {
-			return "", err
+			if lp.SkipFull[cur] {
+				return "", err
+			}
+			if lp.SkipFull == nil {
+				lp.SkipFull = map[string]bool{}
+			}
+			lp.SkipFull[cur] = true
+			continue
 		}
 		skip[cur] = err.Error()
 	}
@@ -670,8 +687,12 @@ func (ld *Loaded) genStubOnce(lp *LPkg, skip map[string]string, cur *string) (st
 	n := 0
 	for _, fc := range cf.Funcs {
 		n++
+		reduced := false
 		if _, dropped := skip[fc.Key]; dropped {
-			continue
+			if lp.SkipFull[fc.Key] {
+				continue
+			}
+			reduced = true
 		}
 		*cur = fc.Key
 		fmt.Fprintf(&body, "// @unit %s\n", fc.Key)
@@ -773,6 +794,10 @@ func (ld *Loaded) genStubOnce(lp *LPkg, skip map[string]string, cur *string) (st
 			emit("post", strings.Join(pdr, ", ")+oldDecl, append(append([]Clause{}, fc.Ensures...), fc.Assumes...), "")
 		}
 		// loops
+		if reduced {
+			u.Drifted = true
+			continue
+		}
 		// Which loop of the code each annotated loop of the contract is: the loop at the recorded
 		// ordinal if its header still reads the same; else the only unclaimed loop with that header
 		// (loops were added or removed before it); else the loop at the recorded ordinal, if no other
